@@ -359,16 +359,21 @@ R20.6 exit status: ErrNoNewVersion maps to the distinct non-zero code, any other
 		// the tags created: the version string and the text before its first dot, both at repo.Head()'s hash
 		fct := newFuncCanon(info, ct)
 		okNames, okHash := false, false
-		// the list of tag names: a two-element []string literal {version, text before its first dot}
-		lit := ""
+		// the list of tag names: a two-element []string literal {version, text before its first dot}; the
+		// version is createTag's string parameter, or "v" + the canonical form of its *semver.Version parameter
+		const verFromParsed = `"v" + ARG1.String<(github.com/Masterminds/semver/v3.Version).String>()`
+		lit, tagExpr := "", ""
 		ast.Inspect(ct.Body, func(n ast.Node) bool {
 			cl, isL := n.(*ast.CompositeLit)
 			if !isL || len(cl.Elts) != 2 || !typeIs(info.TypeOf(cl), "[]string") {
 				return true
 			}
 			a, b := fct.E(cl.Elts[0]), fct.E(cl.Elts[1])
-			if a == "ARG1" && b == `strings.Split(ARG1, ".")[0]` || b == "ARG1" && a == `strings.Split(ARG1, ".")[0]` {
-				lit = fct.E(cl)
+			for _, v := range []string{"ARG1", verFromParsed} {
+				if a == v && b == "strings.Split("+v+`, ".")[0]` || b == v && a == "strings.Split("+v+`, ".")[0]` {
+					lit = fct.E(cl)
+					tagExpr = v
+				}
 			}
 			return true
 		})
@@ -413,7 +418,8 @@ R20.6 exit status: ErrNoNewVersion maps to the distinct non-zero code, any other
 				if call, ok := n.(*ast.CallExpr); ok && len(call.Args) == 2 {
 					if fn := calleeFunc(info, call); fn != nil && fn.Name() == "createTag" {
 						got = ftg.E(call.Args[1])
-						okArg = got == `"v" + github.com/Masterminds/semver/v3.NewVersion(RECV.Version)#0.String<(github.com/Masterminds/semver/v3.Version).String>()`
+						okArg = got == `"v" + github.com/Masterminds/semver/v3.NewVersion(RECV.Version)#0.String<(github.com/Masterminds/semver/v3.Version).String>()` ||
+							tagExpr == verFromParsed && got == "github.com/Masterminds/semver/v3.NewVersion(RECV.Version)#0"
 					}
 				}
 				return true
